@@ -93,10 +93,19 @@ def gconfigEq (a b : GConfig) : Bool :=
   | .fcgi => isInstance b.kind ((eqBaseClass.lookup "FastCGIGroupConfig").getD "") && (fcgiEqAttrs.all fun n => gAttrEq n a b)
              && (if fcgiEqDelegatesToGroup then groupEq a b else true)
 
-/-- `cand != curr`: Config.__ne__ = not self.__eq__(other); CPython gives the right operand's method priority
-    when its class is a proper subclass of the left operand's class (FastCGIGroupConfig < ProcessGroupConfig) -/
-def gconfigNe (a b : GConfig) : Bool :=
-  if b.kind != a.kind && isInstance b.kind (gkindClass a.kind) then !gconfigEq b a else !gconfigEq a b
+/-- `a == b` as an operator: CPython gives the right operand's `__eq__` priority when its class is a proper
+    subclass of the left operand's class (FastCGIGroupConfig < ProcessGroupConfig) -/
+def gconfigEqOp (a b : GConfig) : Bool :=
+  if b.kind != a.kind && isInstance b.kind (gkindClass a.kind) then gconfigEq b a else gconfigEq a b
+
+/-- `cand != curr`: Config.__ne__ = not self.__eq__(other), with the same operand priority -/
+def gconfigNe (a b : GConfig) : Bool := !gconfigEqOp a b
+
+/-- `new == old` on two lists of group configs -/
+def glistEq : List GConfig → List GConfig → Bool
+  | [], [] => true
+  | a :: as, b :: bs => gconfigEqOp a b && glistEq as bs
+  | _, _ => false
 
 /-! ## diff_to_active -/
 
@@ -137,13 +146,24 @@ deriving DecidableEq, Repr
 
 def State.find (s : State) (n : String) : Option Active := s.active.find? fun a => a.cfg.name == n
 
+/-- ServerOptions.process_config after a successful read: which list is `options.process_group_configs` afterwards.
+    The code assigns the parsed list; whether it does so unconditionally is a GENERATED fact
+    (`processConfigInstalls`, `processConfigInstallGuards`).  A guard `new != self.process_group_configs` (config
+    equality lets AUTO match any log file name!) is followed faithfully; any other guard is not understood and modelled
+    as "never installs", which the correspondence then exposes. -/
+def installParsed (old new : List GConfig) : List GConfig :=
+  if !processConfigInstalls then old
+  else if processConfigInstallGuards.isEmpty then new
+  else if processConfigInstallGuards == ["new != self.process_group_configs"] then (if glistEq new old then old else new)
+  else old
+
 /-- reloadConfig: `parsed` is the outcome of process_config(do_usage=False) on the current file -/
 def reloadConfig (s : State) (parsed : Except String (List GConfig)) : Except Fault (List String × List String × List String) × State :=
   match parsed with
   | .error _ => (.error .cantReread, s)
   | .ok new =>
-    let s' : State := { s with file := new }
-    let d := diffToActive new (s.active.map (·.cfg))
+    let s' : State := { s with file := installParsed s.file new }
+    let d := diffToActive s'.file (s.active.map (·.cfg))
     (.ok (d.added.map (·.name), d.changed.map (·.name), d.removed.map (·.name)), s')
 
 def freshProcs (g : GConfig) : List Proc := g.procs.map fun p => { name := p.name, pid := 0, stopped := true }
